@@ -47,7 +47,7 @@ LEVEL_TEXT = ("Generated (history, format pair, overlap, route) combinations are
               "of an unbounded space.")
 LEVEL_NOTE = ("Differential against the source repository; ancestry computed with "
               "the harness' own graph code; storage layers trusted.")
-REGISTERED = False
+REGISTERED = True
 NONTRIVIAL_FLOOR = {"quick": 150, "thorough": 5000}
 
 FORMATS = ["2a", "pack-0.92", "1.9", "1.9-rich-root", "rich-root-pack", "1.14",
